@@ -48,6 +48,9 @@ type vlog struct {
 	gateKey string
 	entered chan string
 	release chan struct{}
+	// clients take this long to leave Run after Stop (C07: the manager must wait for them before it starts a
+	// successor for the same placement or returns from its own Run)
+	slowStopMs int
 }
 
 type vEntry struct {
@@ -102,7 +105,7 @@ func newVClientCtor(l *vlog) func(nc *nats.Conn, cfg Vdev) client.Client {
 			l.entered <- cfg.Parent + "-" + cfg.ID
 			<-l.release
 		}
-		c := &vClient{log: l, key: cfg.Parent + "-" + cfg.ID, inst: inst, cfg: cfg, stop: make(chan struct{})}
+		c := &vClient{log: l, key: cfg.Parent + "-" + cfg.ID, inst: inst, cfg: cfg, stop: make(chan struct{}), slowMs: l.slowStopMs}
 		l.mu.Lock()
 		l.clients = append(l.clients, c)
 		l.mu.Unlock()
